@@ -33,7 +33,7 @@ TSlotNode == [s \in {"A", "A2", "B", "B2", "C", "C2", "U"} |->
 TMaxReq == [c \in TClients |-> 1000]
 
 Stimuli == {"send", "answer", "bclose", "cclose", "expire"}
-Ignored == {"open", "ready", "skip", "end", "noiter", "tick", "rawsend", "sclose", "openfail", "sendfail"}
+Ignored == {"open", "ready", "skip", "end", "noiter", "tick", "rawsend", "sclose", "openfail", "sendfail", "answerauto"}
 Line == TraceLog[l]
 
 TInit == Init /\ l = 1 /\ l0 = 1 /\ ievs = <<>> /\ TLCSet(1, 1)
